@@ -59,6 +59,11 @@ impl Rng {
     pub fn bytes(&mut self, n: usize) -> Vec<u8> {
         (0..n).map(|_| self.next() as u8).collect()
     }
+    /// `lo + below(span)` random bytes
+    pub fn rbytes(&mut self, lo: usize, span: usize) -> Vec<u8> {
+        let n = lo + self.below(span);
+        self.bytes(n)
+    }
     pub fn shuffle<T>(&mut self, v: &mut [T]) {
         for i in (1..v.len()).rev() {
             let j = self.below(i + 1);
@@ -411,6 +416,7 @@ pub fn treehash(v: &V) -> Vec<u8> {
 
 thread_local! {
     static LAST_PANIC: RefCell<Option<String>> = const { RefCell::new(None) };
+    static IN_GUARD: RefCell<u32> = const { RefCell::new(0) };
 }
 
 pub fn install_panic_hook() {
@@ -426,6 +432,9 @@ pub fn install_panic_hook() {
         } else {
             "?".to_string()
         };
+        if IN_GUARD.with(|g| *g.borrow()) == 0 {
+            eprintln!("HARNESS PANIC (outside guard) at {loc}: {msg}");
+        }
         LAST_PANIC.with(|p| *p.borrow_mut() = Some(format!("{loc}: {}", trunc(&msg, 300))));
     }));
 }
@@ -433,7 +442,10 @@ pub fn install_panic_hook() {
 /// Run f, turning a panic into Err(location: message).
 pub fn guard<T, F: FnOnce() -> T>(f: F) -> Result<T, String> {
     LAST_PANIC.with(|p| *p.borrow_mut() = None);
-    match std::panic::catch_unwind(std::panic::AssertUnwindSafe(f)) {
+    IN_GUARD.with(|g| *g.borrow_mut() += 1);
+    let r = std::panic::catch_unwind(std::panic::AssertUnwindSafe(f));
+    IN_GUARD.with(|g| *g.borrow_mut() -= 1);
+    match r {
         Ok(v) => Ok(v),
         Err(_) => Err(LAST_PANIC
             .with(|p| p.borrow_mut().take())
@@ -562,7 +574,13 @@ impl Out {
         self.count("violations");
         self.event(&json!({"violation": j}));
         self.flush();
-        if self.violations.len() < std::env::var("VH_VIOL_CAP").ok().and_then(|x| x.parse().ok()).unwrap_or(200) {
+        // keep at most 25 records per (kind, signature) so that one frequent class cannot crowd
+        // out a different one; the counters keep the full totals
+        let key = format!("viol.{}|{}", j.get("kind").and_then(|k| k.as_str()).unwrap_or("?"), j.get("sig").and_then(|k| k.as_str()).unwrap_or("-"));
+        let n = *self.counters.get(&key).unwrap_or(&0);
+        self.count(&key);
+        let cap: u64 = std::env::var("VH_VIOL_CAP").ok().and_then(|x| x.parse().ok()).unwrap_or(25);
+        if n < cap {
             self.violations.push(j);
         }
     }
